@@ -54,11 +54,16 @@ def bidirected_to_unobserved_confounder(
 
     # for every bidirected edge, add a new node
     bidirected_sub_graph = G.get_graphs(edge_type=bidirected_edge_name)
-    for idx, latent_edge in enumerate(bidirected_sub_graph.edges):
-        G_copy.add_node(f"U{idx}", label=uc_label, observed="no")
+    idx = 0
+    for latent_edge in bidirected_sub_graph.edges:
+        # the unobserved confounder must be a new node: skip names that are already taken
+        while f"U{idx}" in G_copy:
+            idx += 1
+        uc_name = f"U{idx}"
+        G_copy.add_node(uc_name, label=uc_label, observed="no")
 
         # then add edges from the new UC to the nodes
-        G_copy.add_edge(f"U{idx}", latent_edge[0])
-        G_copy.add_edge(f"U{idx}", latent_edge[1])
+        G_copy.add_edge(uc_name, latent_edge[0])
+        G_copy.add_edge(uc_name, latent_edge[1])
 
     return G_copy
